@@ -444,12 +444,16 @@ func (p *parser) readEscStr(start int, term byte) string {
 	p.pos--
 	buf = append(buf, p.buf[start:p.pos]...)
 	var b byte
+	terminated := false
 top:
 	for p.pos < len(p.buf) {
 		b = p.buf[p.pos]
 		p.pos++
 		switch b {
 		case '\\':
+			if len(p.buf) <= p.pos {
+				goto fail
+			}
 			b = p.buf[p.pos]
 			p.pos++
 			switch b {
@@ -498,10 +502,14 @@ top:
 				goto fail
 			}
 		case term:
+			terminated = true
 			break top
 		default:
 			buf = append(buf, b)
 		}
+	}
+	if !terminated {
+		p.raise("string not terminated")
 	}
 	return string(buf)
 fail:
